@@ -13,7 +13,7 @@ from .reference import Reference, declared_edges, reachable
 from .sim import BarrierScheduler, FifoScheduler, ScriptedScheduler, make_scheduler
 
 # construct classes currently claimed (extended as defects are repaired); see DESIGN 4.2 / 7
-CLASSES_ALL = ['plain', 'rec', 'rec_nested', 'rec_switch', 'switch', 'switch_unk', 'switch_shared', 'oneof', 'oneof_nested', 'oneof_shared', 'mix_main', 'mix_shared', 'switch_oneof', 'hub', 'nest3', 'corpus']
+CLASSES_ALL = ['plain', 'rec', 'rec_nested', 'rec_switch', 'rec_oneofc', 'switch', 'switch_unk', 'switch_shared', 'oneof', 'oneof_nested', 'oneof_shared', 'mix_main', 'mix_shared', 'switch_oneof', 'hub', 'nest3', 'corpus']
 
 
 def h64(*parts) -> int:
@@ -463,7 +463,8 @@ class C09(Prop):
 
 class C10(Prop):
     id = 'C10'
-    classes = ['oneof', 'oneof_nested', 'oneof_shared', 'mix_main', 'mix_shared', 'switch_oneof', 'hub', 'nest3']
+    classes = ['oneof', 'oneof_nested', 'oneof_shared', 'mix_main', 'mix_shared', 'switch_oneof', 'hub', 'nest3',
+               'rec_oneofc']
     rule = ('programs with sibling / nested one-ofs, failures at any depth of candidate sub-pipelines, None/falsy '
             'candidates; oracle: invocation multiset vs reference (laziness, containment, winner value), candidate '
             'start order, OneOfDoesNotHaveResultError on exhaustion; non-trivial = some candidate failed before '
@@ -481,7 +482,7 @@ class C10(Prop):
 
 class C11(Prop):
     id = 'C11'
-    classes = ['rec', 'rec_nested', 'rec_switch']
+    classes = ['rec', 'rec_nested', 'rec_switch', 'rec_oneofc']
     rule = ('one recurrent subgraph over a plain DAG, 0..max+1 requested iterations, default on/off, retries and '
             'failures inside the path; oracle: per-iteration invocation multiset (exact path set re-executed, start '
             'node gets additional_data=data, <= max re-iterations), consumers of the destination only see the final '
